@@ -76,7 +76,17 @@ def model_runs(chk, tier):
     nsim = 100 if tier == "quick" else 2000
     r = chk.tlc("ProtoShapesMC.tla", "ProtoShapes_sim.cfg", "sim", workers=W, simulate=nsim // W, depth=80, seed=chk.seed, timeout=3000)
     take(r, "sim")
-    return cases
+    # a free choice of the concretiser: the same sets in a file WITHOUT a package statement, the messages called Am, Bm, ...
+    # (names that differ in their first letter only) - a seeded sample of the sets with two or more messages
+    multi = [c for c in cases if len(c.get("msgs") or []) >= 2]
+    random.Random(chk.seed).shuffle(multi)
+    nop = []
+    for c in multi[: (400 if tier == "quick" else 5000)]:
+        c2 = json.loads(json.dumps(c))
+        c2["nopkg"] = True
+        nop.append(c2)
+    chk.extra_cov.setdefault("cases_by_config", {})["no_package_copies"] = len(nop)
+    return cases + nop
 
 
 def crash_site(text):
